@@ -215,6 +215,13 @@ func (rq *request) wantCode() int {
 	return rq.b.wantCode(rq.matched)
 }
 
+func thresholdName(l slog.Level) string {
+	if n, ok := lm.LevelNames[l]; ok {
+		return n
+	}
+	return "unnamed-threshold"
+}
+
 type ctxKey struct{}
 
 // theMux is the Mux the handlers forward through (set by the batch that is running; batches run one at a time).
@@ -356,13 +363,13 @@ func (b *batch) render() string {
 	for _, r := range b.reqs {
 		parts = append(parts, fmt.Sprintf("%s %s from %s matched=%v {%s}", r.method, r.uri, r.remote, r.matched, r.b))
 	}
-	return fmt.Sprintf("%s threshold=%s parallel=%d: %s", lm.HandlerNames[b.kind], lm.LevelNames[b.threshold], b.parallel, strings.Join(parts, " | "))
+	return fmt.Sprintf("%s threshold=%s parallel=%d: %s", lm.HandlerNames[b.kind], thresholdName(b.threshold), b.parallel, strings.Join(parts, " | "))
 }
 
 func genBatch(t *rapid.T) *batch {
 	b := &batch{
 		kind:      rapid.IntRange(0, 2).Draw(t, "handler"),
-		threshold: rapid.SampledFrom([]slog.Level{logger.LevelDebug, logger.LevelInfo, logger.LevelInfo, logger.LevelWarn, logger.LevelError, logger.LevelFatal}).Draw(t, "threshold"),
+		threshold: rapid.SampledFrom([]slog.Level{logger.LevelDebug, logger.LevelInfo, logger.LevelInfo, logger.LevelWarn, logger.LevelError, logger.LevelFatal, -5, 1, 3, 5, 7, 11, 13, 17}).Draw(t, "threshold"),
 		parallel:  rapid.SampledFrom([]int{1, 1, 2, 4, 8, 16}).Draw(t, "parallel"),
 	}
 	n := rapid.IntRange(1, 12).Draw(t, "nreqs")
@@ -698,7 +705,7 @@ func TestBatches(t *testing.T) {
 				ev.Label("unmatched_route")
 			}
 		}
-		ev.Label("handler:" + lm.HandlerNames[b.kind] + "/" + lm.LevelNames[b.threshold])
+		ev.Label("handler:" + lm.HandlerNames[b.kind] + "/" + thresholdName(b.threshold))
 		ev.LabelN("requests", int64(len(b.reqs)))
 		ev.Case(nt, ev.Hash(b.render()), b.render)
 	})
